@@ -29,11 +29,11 @@ CHECKS = {
  "C05": (X, "differential property-based testing against an independent reference codec (refmp4): byte diff of encoder output, field diff of decoder output on reference bytes in compact / 64-bit-header / spare-byte / padded-descriptor layouts, exhaustive AudioSpecificConfig product",
          "The library's bytes must equal the reference encoder's for the same fields (reserved bits masked, ilst order ignored) and the library must decode every reference layout to the same fields; the AudioSpecificConfig product (93 object types x 16 frequency indices x 16 channel configurations) is enumerated. One open known finding (explicit-frequency channel configuration) is tolerated by signature.",
          "conformance judged against the harness author's reading of the specifications", "DESIGN.md 4/C05"),
- "C06": (X, "structure-aware fuzzing: exhaustive single / strided pairwise boundary-value substitution into every field of reference-encoded and canned files, box-tree surgery, prefixes and proptest havoc, through an API driver with a panic/abort oracle in two build profiles",
+ "C06": (X, "structure-aware fuzzing: exhaustive single / strided pairwise boundary-value substitution into every field of reference-encoded and canned files, box-tree surgery, prefixes and proptest havoc, also consistent inflation of counts with ancestor sizes, a mutated box twice in a row, amplification (over-reading trak/traf x 200-400), 100 000-entry tables, valid structures with unusual content, and the stand-alone box decoders with their renderings, through an API driver with a panic/abort oracle in two build profiles",
          "Every generated input is opened (as file, as fragment against two init segments, with segments against it) and every read-side call is made under catch_unwind in a wrapping and an overflow-checked build; process death is attributed to the case and re-confirmed in a fresh process. Search, not proof: absence is shown only for the explored inputs.",
-         "trusts the reference encoder for seed files and the field map; inputs <= ~6 KiB", "DESIGN.md 4/C06"),
- "C07": (X, "structure-aware fuzzing focused on size/count/offset fields with a deterministic resource oracle (operation-counting stream with hard budget, thread CPU time, supervisor stall detection)",
-         "Each call's stream operations and bytes are counted against 64*n + 65536 (open) / 64 (later calls); a non-advancing loop exhausts the budget and is reported deterministically; CPU blow-ups (> 1 s per call, normal: microseconds) are confirmed by a second execution; hangs without I/O are killed by the supervisor and re-confirmed alone.",
+         "trusts the reference encoder for seed files and the field map; mutated inputs <= ~6 KiB; scale stages up to ~1 MiB", "DESIGN.md 4/C06"),
+ "C07": (X, "structure-aware fuzzing focused on size/count/offset fields with a deterministic resource oracle (operation-counting stream with hard budget, thread CPU time absolute and relative to an ordered-table baseline of the same length, supervisor stall detection)",
+         "Each call's stream operations and bytes are counted against 24*n + 65536 (open) / 64 + (n + sample size)/64 (later calls); a non-advancing loop exhausts the budget and is reported deterministically; CPU blow-ups (> 1 s per call, normal: microseconds) are confirmed by a second execution; hangs without I/O are killed by the supervisor and re-confirmed alone.",
          "CPU linearity only as a blow-up detector; bounds 20x above the measured maximum of 3 operations per input byte", "DESIGN.md 4/C07"),
  "C08": (X, "structure-aware fuzzing focused on count/length/size fields with a counting global allocator as oracle",
          "Per call the total bytes requested and the largest single request are compared with 256*n + 8 MiB and 64*n + 4 MiB; huge requests are satisfied lazily and observed in-process, refused ones abort the worker and are attributed by the supervisor.",
@@ -43,7 +43,7 @@ CHECKS = {
          "trusts the reference encoder; one run per traf; sync flags not asserted", "DESIGN.md 4/C09"),
  "C10": (F, "fault injection enumerated over every stream-call index x fault kind (error, zero-length transfer) for opening, sample reads and whole muxing histories; short-transfer / EINTR streams compared with a full-transfer baseline",
          "For every explored file and history the stream calls are counted in a fault-free run and then each single call index is failed in turn: the public call in progress must return Error::IoError (with the injected marker), never Ok, another variant or a panic. Streams limited to 1..64 bytes per call with sporadic Interrupted must give identical boxes, samples and output bytes.",
-         "one fault per run; subjects: 4 canned + ~8 reference-encoded files, 14 (thorough 80) histories", "DESIGN.md 4/C10"),
+         "one fault per run; subjects: 4 canned + ~14 reference-encoded files, 160 (thorough 600) generated histories + 2 long ones (300 / 540 samples)", "DESIGN.md 4/C10"),
  "C11": (F, "crash-point enumeration: every prefix length of files in every layout, compared with the complete file's samples",
          "Every cut position 0..len of every subject file (and media segment against its intact init) is opened with the prefix's own length; a successful open must return, for every sample id of the complete file, an error, None beyond its own count, or exactly the complete file's sample. Panics and budget exhaustion (hangs) are violations.",
          "baseline = library's reading of the complete file", "DESIGN.md 4/C11"),
@@ -57,15 +57,15 @@ CHECKS = {
          "Each generated configuration is muxed with a short history, reopened, and every accessor compared with the configuration (independent AVC profile table; exact-arithmetic one-tick duration tolerance). AAC enum product and profile/compat pairs are exhaustive, the rest sampled.",
          "trusts the harness' tables; durations kept below 2^50 movie ticks", "DESIGN.md 4/C14"),
  "C15": (X, "stateful property-based testing: generated call schedules on one reader vs single calls on fresh readers; repeated mux/parse runs compared",
-         "Each call of a generated schedule (samples, offsets, counts, accessors; valid, missing and out-of-range ids; repeats) must return what a fresh reader returns for that single call; the same history muxed twice (second time on another thread) must give identical bytes and the same bytes opened twice equal structures and JSON.",
+         "Each call of a generated schedule (samples, offsets, counts, accessors; valid, missing and out-of-range ids; repeats) must return what a fresh reader returns for that single call; the same history muxed twice (second time on another thread) must give identical bytes - also with a real pause before a generated call - and the same bytes opened twice equal structures; a soak of 260 000 repetitions of one call and canary boxes decoded throughout the run guard against state outside the readers; and JSON.",
          "results normalised to text; schedules <= 200 calls", "DESIGN.md 4/C15"),
  "C16": (X, "exhaustive enumeration of every finite mapping domain (2^32 codes, 2^16 language codes, 2^16 profile pairs, all u8/u16 raw values) against independent tables",
          "Each mapping is evaluated on its complete domain and compared with tables written in the harness from the specifications; for these domains the check is a decision, not a sample (exhaustive: true). Text form of non-UTF-8 codes and the 2^32 raw values of FixedPointU16/DataType are complete only in the thorough tier.",
          "trusts the harness' tables (four-character codes, ISO-639 packing, AAC tables, H.264 profile_idc)", "DESIGN.md 4/C16"),
- "C17": (X, "stateful property-based testing over full argument ranges (incl. invalid), panic/abort oracle in two build profiles, plus C01/C02 oracles on all-Ok histories",
-         "Every call of every generated history is wrapped in catch_unwind in a wrapping and an overflow-checked build; process death is caught by the supervisor and confirmed in a fresh process. All-Ok representable histories additionally pass the C02 and C01 oracles. Bounded search.",
+ "C17": (X, "stateful property-based testing over full argument ranges (incl. invalid), panic/abort oracle in two build profiles, plus C01/C02 oracles on all-Ok histories; call sequences that go on after write_end and after a failed sink call",
+         "Every call of every generated history is wrapped in catch_unwind in a wrapping and an overflow-checked build; process death is caught by the supervisor and confirmed in a fresh process. All-Ok representable histories additionally pass the C02 and C01 oracles. Further stages: 1..3 rounds of (write_sample,) write_end after the history's write_end; histories muxed into a sink of which one call fails, the caller continuing - later calls may return anything but must not panic. Bounded search.",
          "typed enum arguments cannot take undeclared values; histories <= 40 ops, <= 100 tracks", "DESIGN.md 4/C17"),
- "C18": (X, "property-based testing: proptest-generated iTunes metadata rendered by an independent encoder; expected-value oracle plus metamorphic relation (unknown items are no-ops)",
+ "C18": (X, "property-based testing: proptest-generated iTunes metadata rendered by an independent encoder; expected-value oracle plus metamorphic relation (unknown items, locale words, 64-bit headers and a decoy meta in moov are no-ops)",
          "Accessor results are compared with the values the reference encoder wrote, over all item subsets, encodings, lengths, handler types and meta styles; removing unknown items must not change any answer.",
          "trusts the reference encoder; text payloads valid UTF-8; undefined year encodings not asserted", "DESIGN.md 4/C18"),
 }
